@@ -1002,7 +1002,9 @@ def apply_history(w: TunnelWorld, hist: dict, seed: int) -> None:
     st.peer_flags = set(EXIT_ALL)
     st.min_circuits = st.max_circuits = 0
     w.ov["Z"] = z.add_overlay(TunnelCommunity, st)
-    for n in (others if hist["reintro"] == "all" else ["O"]):
+    # "relays": everybody but the originator hears from X again - the originator still believes the old address
+    for n in (others if hist["reintro"] == "all" else [m for m in others if m != "O"] if hist["reintro"] == "relays"
+              else ["O"]):
         x.run(w.ov["X"].walk_to, w.nodes[n].address)
     w.flush()
     w.run_for(6.0)                                   # another sweep: candidates are pruned / refreshed
@@ -1483,8 +1485,8 @@ def build_jobs(thorough: bool, seed: int) -> tuple[list, dict]:
         if ncirc == 1 and not spare:
             for removal, reintro, where in (("none", "all", "all"), ("foreign", "all", "all"), ("foreign", "O", "all"),
                                             ("own", "all", "all"), ("own", "O", "all"), ("foreign", "O", "relays"),
-                                            ("own", "O", "relays")):
-                if h == 1 and (reintro == "O" or where == "relays"):
+                                            ("own", "O", "relays"), ("none", "relays", "all")):
+                if h == 1 and (reintro in ("O", "relays") or where == "relays"):
                     continue                      # with one hop the originator is the only node that looks X up
                 jobs.append((scn, [{"site": "history", "op": "moved", "removal": removal, "reintro": reintro,
                                     "where": where}]))
